@@ -1,5 +1,5 @@
 (* Properties/C01.v — Search returns only live items with true scores, sorted, unique, at most k. *)
-From Verif Require Import Base.Prelude Store.Spec Store.Partition Store.Proofs Store.Replicas Hnsw.Model Hnsw.Frame Hnsw.Inv Hnsw.Oracle Hnsw.Search Hnsw.Dataset Generated.Facts.
+From Verif Require Import Base.Prelude Store.Spec Store.Partition Store.Proofs Store.Replicas Hnsw.Model Hnsw.Frame Hnsw.Inv Hnsw.Oracle Hnsw.Search Hnsw.Dataset Hnsw.Check Hnsw.Reload Generated.Facts.
 From Coq Require Import Sorted.
 Open Scope N_scope.
 
@@ -21,6 +21,15 @@ Theorem C01_inv_any_order : forall dist c steps s cont, Inv s -> Permutation (h_
   Inv (fold_left (hstep_apply dist c) steps s) /\
   Permutation (h_items (fold_left (hstep_apply dist c) steps s)) (fold_left spec_step steps cont).
 Proof. exact any_order_run. Qed.
+(* … and with snapshot save-and-load anywhere in the history (the model's reload: what Save writes and Load rebuilds —
+   live vertices only, renumbered, links to tombstones gone, counters recomputed; compared dump for dump with the real
+   Save + Load by the harness): the invariant survives, the contents are unchanged *)
+Theorem C01_reload : forall s, Inv s -> Inv (reload s) /\ h_items (reload s) = h_items s.
+Proof. intros s I. split; [apply reload_inv|apply reload_items]; exact I. Qed.
+Theorem C01_inv_any_order_with_reload : forall dist c steps s cont, Inv s -> Permutation (h_items s) cont ->
+  Inv (fold_left (rstep_apply dist c) steps s) /\
+  Permutation (h_items (fold_left (rstep_apply dist c) steps s)) (fold_left rspec_step steps cont).
+Proof. exact any_order_run_reload. Qed.
 Theorem C01_inv_initial : Inv hnsw_empty.
 Proof. exact inv_empty. Qed.
 
@@ -53,6 +62,8 @@ Proof. exact h_contract. Qed.
 
 Print Assumptions C01_inv_reachable.
 Print Assumptions C01_inv_any_order.
+Print Assumptions C01_reload.
+Print Assumptions C01_inv_any_order_with_reload.
 Print Assumptions C01_search_sound.
 Print Assumptions C01_dataset_merge.
 Print Assumptions C01_store_contract.
